@@ -23,8 +23,14 @@ func isHTTP(s string) bool {
 //   lenient: no authentic answer => (not revoked, nil)
 //   non-HTTP responders are never contacted; no HTTP responder => never an error
 func VerifC02_Responders() {
-	ncand := 1 + verifrt.Choose(verifrt.Param("cands", 2))
+	// 0 candidates: the issuer of the certificate is not found among the chain / trusted responder
+	// certificates (or the search fails) - then no answer can be authenticated
+	ncand := verifrt.Choose(verifrt.Param("cands", 2) + 1)
 	installOCSPWorld(ncand)
+	if ncand == 0 {
+		candSearchFails = verifrt.Choose(2) == 1
+		verifrt.Reach("no-issuer-candidate")
+	}
 	presented, other := sym("presented"), sym("other")
 	verifrt.Assume(presented.Cmp(other) != 0)
 	strict := verifrt.Choose(2) == 1
